@@ -193,6 +193,9 @@ func (r *Result) Finish(t *Tables, evidenceDir string) int {
 				o.Detail = o.Detail + " [known finding: " + k.What + "]"
 				usedKnown[o.Key] = true
 			} else if rv, ok := lookupReviewed(reviewed, t.Reviewed, o.Key); ok {
+				if os.Getenv("LALCHECK_USED_REVIEWED") != "" {
+					fmt.Printf("USED-REVIEWED\t%s\n", rv.Key)
+				}
 				o.Status = Assumed
 				o.Detail = o.Detail + " [reviewed invariant: " + rv.Assume + " — " + rv.Reason + "]"
 			}
